@@ -37,22 +37,153 @@ def initial_state(ex, fi, c, cx):
     return st
 
 
-def verify_function(ex, fi, c, label=None):
-    """Returns (obligations, error or None)."""
+def case_list(c, chunk=None):
+    """All combinations of the contract's top-level case split (optionally one chunk of them)."""
+    import itertools
+    if not c.cases:
+        return [None]
+    names = list(c.cases)
+    combos = [dict(zip(names, vals)) for vals in itertools.product(*[c.cases[n] for n in names])]
+    if chunk is not None:
+        i, n = chunk
+        combos = combos[i::n]
+    return combos
+
+
+def bind_case(ex, st, case):
+    """Fix parameters / receiver fields to concrete values (one case of the split)."""
+    for name, val in case.items():
+        if isinstance(val, bool):
+            sv = SV(BOOL, z3.BoolVal(val))
+        elif isinstance(val, int):
+            sv = SV(INT, I(val))
+        elif isinstance(val, str):
+            sv = SV(STR, z3.StringVal(val))
+        else:
+            raise VCError(f'case value {val!r}')
+        if '.' in name:
+            base, fld = name.split('.')
+            st = ex.write_field(st, st.vars[base], fld, sv)
+        else:
+            st = st.setvar(name, ex.coerce(sv, st.vars[name].ty))
+    return st
+
+
+def setup_blocks(ex, fi, c):
+    from .stmts import find_block
+    ex.block_map = {}
+    for name, spec in (c.blocks or {}).items():
+        stmts = find_block(fi.node, spec['where'])
+        if not stmts:
+            raise VCError(f'anchor-missing: block {name} ({spec["where"]}) is empty')
+        ex.block_map[id(stmts[0])] = (name, spec, stmts)
+
+
+def verify_block(ex, fi, c, name, label=None):
+    """Verify one block contract in isolation: arbitrary state satisfying the block's requires."""
+    from .stmts import find_block
     ex.cur_fn = fi.key
+    ex.cur_contract = c
+    ex.cur_fi = fi
+    ex.obs = []
+    spec = c.blocks[name]
+    lab = f'{label or c.name or short(fi.key)}/block[{name}]'
+    ltypes = dict(c.locals)
+    ltypes.update(spec.get('locals', {}))
+    cx = Cx(fi, spec=False, depth=0, contract=c, label=lab, local_types=ltypes)
+    scx = cx.as_spec()
+    try:
+        setup_blocks(ex, fi, c)
+        ex.verifying_block = name
+        stmts = find_block(fi.node, spec['where'])
+        st = initial_state(ex, fi, c, cx)
+        for n, tys in ltypes.items():
+            v = ex.fresh(ex.tenv.parse(tys), n)
+            st = st.setvar(n, v)
+            for fact in ex.type_facts(v):
+                st = st.assume(fact)
+            st = ex.assume_allocated(st, v)
+        for r in spec.get('requires', []):
+            st = st.assume(eval_clause(ex, st, r, scx))
+        ex.oblige(st, f'{lab}/vacuity.requires', z3.BoolVal(False), kind='vacuity')
+        for ln in spec.get('lemmas', c.lemmas):
+            st = st.assume(lemma_formula(ex, ln))
+        raises = spec.get('raises', {})
+        st = st.copy(handlers=(tuple(raises.keys()),)).snap('old')
+        rconds = {k_: eval_clause(ex, st, v_, scx) for k_, v_ in raises.items()}
+        outs = exec_block(ex, st, stmts, cx)
+        ex.stats['paths'] += len(outs)
+        for kind, s, val in outs:
+            if kind in ('normal', 'continue'):
+                for i, cl in enumerate(spec.get('ensures', [])):
+                    ex.oblige(s, f'{lab}/ensures[{i}]', eval_clause(ex, s, cl, scx), kind='ensures', info=dict(clause=cl))
+                for knd, cz in rconds.items():
+                    ex.oblige(s, f'{lab}/raises[{knd}].onlyif', z3.Not(cz), kind='raises-iff')
+                block_frame_check(ex, st, s, spec, cx, lab)
+            elif kind == 'raise' and val in rconds:
+                ex.oblige(s, f'{lab}/raises[{val}].if', rconds[val], kind='raises-iff')
+            else:
+                ex.oblige(s, f'{lab}/unexpected[{kind}:{val}]', z3.BoolVal(False), kind='absence')
+        return ex.obs, None
+    except VCError as e:
+        return ex.obs, str(e)
+    finally:
+        ex.verifying_block = None
+
+
+def block_frame_check(ex, st0, s_end, spec, cx, lab):
+    declared = heap_keys_of_modifies(ex, st0, spec.get('modifies', []), cx)
+    al0 = ex.heap_get(st0, 'alloc', z3.ArraySort(z3.IntSort(), z3.BoolSort()))
+    for key, arr in s_end.heap.items():
+        before = st0.heap.get(key, ex.heap0.get(key))
+        if key == 'alloc' or before is None or arr is before or arr.eq(before):
+            continue
+        refs = declared.get(key, [])
+        if refs is None:
+            continue
+        r = z3.Int('r!fr')
+        guard = [z3.Select(al0, r)] + [r != x for x in refs]
+        ok = z3.ForAll([r], z3.Implies(z3.And(guard), z3.Select(arr, r) == z3.Select(before, r)))
+        ex.oblige(s_end, f'{lab}/frame[{key}]', ok, kind='frame')
+
+
+def verify_function(ex, fi, c, label=None, chunk=None, block=None):
+    """Returns (obligations, error or None).  With a case split the body is executed once per case."""
+    if block is not None:
+        return verify_block(ex, fi, c, block, label)
+    allobs = []
+    err = None
+    for case in case_list(c, chunk):
+        obs, e = verify_one(ex, fi, c, label, case)
+        if case:
+            for ob in obs:
+                ob.info['top_case'] = case
+        allobs += obs
+        err = err or e
+    ex.obs = allobs
+    return allobs, err
+
+
+def verify_one(ex, fi, c, label=None, case=None):
+    ex.cur_fn = fi.key
+    ex.cur_contract = c
+    ex.cur_fi = fi
     ex.obs = []
     lab = label or c.name or short(fi.key)
     cx = Cx(fi, spec=False, depth=0, contract=c, label=lab)
     scx = cx.as_spec()
     try:
+        setup_blocks(ex, fi, c)
         st = initial_state(ex, fi, c, cx)
+        if case:
+            st = bind_case(ex, st, case)
         for r in c.requires:
             st = st.assume(eval_clause(ex, st, r, scx))
+        # vacuity probe: the precondition must be satisfiable (checked before the proved lemmas are added)
+        ex.oblige(st, f'{lab}/vacuity.requires', z3.BoolVal(False), kind='vacuity')
         st = lemmas_assumed(ex, st, c, scx)
         allowed = tuple(list(c.raises.keys()) + list(c.may_raise.keys()))
         st = st.copy(handlers=(allowed,)).snap('old')
-        # vacuity probe: the precondition must be satisfiable
-        ex.oblige(st, f'{lab}/vacuity.requires', z3.BoolVal(False), kind='vacuity')
         # exceptional conditions are evaluated in the pre-state
         rconds = {}
         for kind, cond in list(c.raises.items()) + list(c.may_raise.items()):
@@ -105,6 +236,24 @@ def lemmas_assumed(ex, st, c, scx):
     for ln in c.lemmas:
         st = st.assume(lemma_formula(ex, ln))
     return st
+
+
+def lemma_body(ex, name):
+    """(bound variables, body) of a lemma, body = hyps -> concl over free constants"""
+    lm = ex.reg.lemmas[name]
+    cx = Cx(None, spec=True)
+    cx.module = None
+    bound = {}
+    for n, tys in lm.vars.items():
+        ty = ex.tenv.parse(tys)
+        bound[n] = SV(ty, z3.Const(f'{n}!lm_{name}', T.sort_of(ty)))
+    cx.spec_vars = bound
+    st = State()
+    hyps = [eval_clause(ex, st, h, cx) for h in lm.hyps]
+    for n, (lo, hi) in lm.ranges.items():
+        hyps += [bound[n].z >= lo, bound[n].z <= hi]
+    concl = [eval_clause(ex, st, h, cx) for h in lm.concl]
+    return bound, z3.Implies(z3.And(hyps) if hyps else z3.BoolVal(True), z3.And(concl))
 
 
 def lemma_formula(ex, name):
